@@ -594,6 +594,12 @@ func (s *seatRun) onNext(pre, post []seatView, prevD int, err error) {
 				s.fail("C17/wrong-error", "err="+err.Error(), fmt.Sprintf("Next() failed with %v, expected the insufficient-players error", err))
 				return
 			}
+			// refused "if, even after waiting players have been let in, fewer than two can play": a refusal
+			// that leaves two or more playable seats behind has let the waiting players in and stalled anyway
+			if pp := playableOf(post); len(pp) >= 2 {
+				s.fail("C17/refused-with-two-playable", "after-let-in", fmt.Sprintf("Next() refused (%v) but left seats %v able to play (before the call: %v)", err, pp, P))
+				return
+			}
 			// a refused move leaves dealer where it was? not claimed
 		} else {
 			if Q < 2 {
